@@ -1,6 +1,7 @@
 """C04 — evaluation never changes the calculator; sessions isolate and persist correctly."""
 from tools import common as C
 from tools.gen import lines as L
+from tools import oracle as O
 
 LEAN_MODULES = ["SCP.C04"]
 THEOREMS = ["SCP.C04.setText_exec", "SCP.C04.history_refines", "SCP.C04.history_slot_counts",
@@ -59,6 +60,8 @@ def gen_history(ctx):
 
 
 def run(ctx, model_ok):
+    run_lines_independence(ctx)
+    run_session_programs(ctx)
     n_hist = ctx.n(150, 6000)
     cases = []
     for _ in range(n_hist):
@@ -111,7 +114,7 @@ def run(ctx, model_ok):
             if k == "exec":
                 oracle_ops.append({"op": "exec_fresh", "lang": "en", "text": t})
                 index.append((ci, "exec", hi))
-    ores = C.run_impl(oracle_ops)
+    ores = [r[0] for r in C.run_impl_sharded([[o] for o in oracle_ops], shards=14)]
     omap = {idx: r for idx, r in zip(index, ores)}
 
     # --- model: session machine with the echo evaluator (status + slot counts)
@@ -186,6 +189,101 @@ def run(ctx, model_ok):
         ctx.count("sessions", nsess)
         if ci < 3 or (nontrivial and len(ctx.samples) < 6):
             ctx.sample({"ops": ops[:12], "impl": [canon_lines(r) if "lines" in r else r for r in rs][:12]})
+
+
+def run_lines_independence(ctx):
+    """variable-free value lines evaluated on ONE long-lived calculator (partly inside multi-line texts) must
+    equal their evaluation on a fresh calculator, line by line: no hidden state survives an evaluation"""
+    rng = ctx.rng
+    pool_units = [("km", "m"), ("kg", "g"), ("mb", "kb"), ("inch", "mm"), ("mile", "yard"), ("lb", "oz")]
+    pool_cur = [("usd", "try"), ("eur", "usd"), ("gbp", "jpy"), ("dkk", "sek")]
+    lines = []
+    for _ in range(ctx.n(600, 20000)):
+        k = rng.random()
+        v = rng.choice(["0", "0", "1", "5", "2,5", "-3", "1000", "0,001", L.num(rng)])
+        if k < 0.3:
+            a, b = rng.choice(pool_units)
+            if rng.random() < 0.5:
+                a, b = b, a
+            lines.append(f"{v} {a} to {b}")
+        elif k < 0.5:
+            a, b = rng.choice(pool_cur)
+            lines.append(f"{v} {a} to {b}")
+        elif k < 0.65:
+            lines.append(rng.choice([f"{v} + 10%", f"10% of {v}", f"{v} is what % of 50", f"{v} days", f"{v} to hex" if v.isdigit() else f"{v} * 2"]))
+        else:
+            lines.append(L.value_line(rng))
+    # group into texts of 1..5 lines
+    texts, i = [], 0
+    while i < len(lines):
+        n = rng.randint(1, 5)
+        texts.append(lines[i:i + n])
+        i += n
+    ops = [{"op": "exec", "lang": "en", "text": "\n".join(t)} for t in texts]
+    res = C.run_impl(ops)
+    fres = [r[0] for r in C.run_impl_sharded([[{"op": "exec_fresh", "lang": "en", "text": l}] for l in lines], shards=14)]
+    li = 0
+    prev = []
+    for t, r in zip(texts, res):
+        if "lines" not in r:
+            li += len(t)
+            continue
+        for ln, got in zip(t, r["lines"]):
+            want = fres[li]
+            li += 1
+            ctx.seen(("indep", ln, len(prev)), len(prev) > 0)
+            ctx.count("independence-lines")
+            if "lines" not in want:
+                continue
+            a, b = canon_line(got), canon_line(want["lines"][0])
+            if a != b:
+                ctx.oracle_fail({"class": "history-dependence", "what": f"line {ln!r} evaluates differently on a calculator that evaluated other lines before",
+                                 "ops": [{"op": "reset"}] + [{"op": "exec", "lang": "en", "text": p} for p in prev[-40:]] + [{"op": "exec", "lang": "en", "text": ln}],
+                                 "long_lived": a, "fresh": b})
+            prev.append(ln)
+
+
+def run_session_programs(ctx):
+    """straight-line programs with an environment oracle (C03 generator), fed to ONE session in several texts"""
+    from tools.props import c03
+    rng = ctx.rng
+    progs = [c03.gen_program(rng) for _ in range(ctx.n(150, 5000))]
+    ops, layout = [], []
+    for pi, (lines, _) in enumerate(progs):
+        ops.append({"op": "sess_new", "id": 0, "lang": "en"})
+        chunks, i = [], 0
+        while i < len(lines):
+            n = rng.randint(1, 4)
+            chunks.append(lines[i:i + n])
+            i += n
+        for ch in chunks:
+            ops.append({"op": "sess_text", "id": 0, "text": "\n".join(t for t, _ in ch)})
+            ops.append({"op": "sess_run", "id": 0})
+        layout.append(chunks)
+    res = C.run_impl(ops)
+    i = 0
+    for (lines, rebinds), chunks in zip(progs, layout):
+        i += 1
+        case_ops = [{"op": "sess_new", "id": 0, "lang": "en"}]
+        bad = None
+        for ch in chunks:
+            case_ops.append(ops[i])
+            case_ops.append(ops[i + 1])
+            r = res[i + 1]
+            i += 2
+            if bad or "lines" not in r or len(r["lines"]) != len(ch):
+                bad = bad or "session run did not return one slot per line"
+                continue
+            for (lt, exp), l in zip(ch, r["lines"]):
+                if exp[0] == "num":
+                    v = l.get("ok") if l else None
+                    if v is None or v.get("t") != "N" or O.f64(v["v"]) != exp[1]:
+                        bad = f"line {lt!r}: got {v if v else (l and l.get('err'))}, the environment semantics give {exp[1]!r}"
+                        break
+        ctx.seen(("sessprog", C.json.dumps(case_ops, ensure_ascii=False)), len(chunks) > 1)
+        ctx.count("session-programs")
+        if bad:
+            ctx.oracle_fail({"class": "session-variables", "what": bad, "ops": [{"op": "reset"}] + case_ops})
 
 
 def replay(ctx, data, model_ok):
